@@ -43,6 +43,71 @@ def _cli(smt2, timeout_s):
     return res
 
 
+def _solve_guarded(s, timeout_ms, want_model=True):
+    """s.check() with a limit that holds.  z3's own timeout is cooperative and some of its arithmetic code (seen: nla::monomial_bounds taking integer
+    roots of huge numbers) does not poll it, and a python signal handler cannot interrupt C code; so the call runs in a forked child that the parent
+    kills HARD_EXTRA_S seconds after the solver's own limit.  Returns ('sat'|'unsat'|'unknown', model dict or None, reason).
+    VERIF_SMT_INPROC=1 switches the guard off."""
+    if os.environ.get('VERIF_SMT_INPROC') == '1':
+        r = s.check()
+        if r == z3.sat:
+            return 'sat', (_model_dict(s.model()) if want_model else None), 'sat'
+        return ('unsat', None, 'unsat') if r == z3.unsat else ('unknown', None, s.reason_unknown())
+    import json, select, signal
+    rfd, wfd = os.pipe()
+    pid = os.fork()
+    if pid == 0:
+        try:
+            os.close(rfd)
+            r = s.check()
+            if r == z3.sat:
+                out = dict(st='sat', model=_model_dict(s.model()) if want_model else None, reason='sat')
+            elif r == z3.unsat:
+                out = dict(st='unsat', model=None, reason='unsat')
+            else:
+                out = dict(st='unknown', model=None, reason=s.reason_unknown())
+            data = json.dumps(out).encode()
+            while data:
+                n = os.write(wfd, data)
+                data = data[n:]
+        except BaseException:
+            pass
+        finally:
+            os._exit(0)
+    os.close(wfd)
+    deadline = time.time() + timeout_ms / 1000.0 + HARD_EXTRA_S
+    chunks = []
+    try:
+        while True:
+            left = deadline - time.time()
+            if left <= 0:
+                try:
+                    os.kill(pid, signal.SIGKILL)
+                except OSError:
+                    pass
+                return 'unknown', None, 'solver call killed %ds after its own limit of %d ms' % (HARD_EXTRA_S, timeout_ms)
+            ready, _, _ = select.select([rfd], [], [], min(left, 1.0))
+            if ready:
+                b = os.read(rfd, 1 << 16)
+                if not b:
+                    break
+                chunks.append(b)
+    finally:
+        os.close(rfd)
+        try:
+            os.waitpid(pid, 0)
+        except OSError:
+            pass
+    try:
+        out = json.loads(b''.join(chunks).decode())
+        return out['st'], out.get('model'), out.get('reason', '')
+    except Exception:
+        return 'unknown', None, 'solver child ended without an answer'
+
+
+HARD_EXTRA_S = 5
+
+
 def check(hyps, goal, timeout_ms=None, want_model=True, tactic=None, use_cli=True):
     """Validity of (/\\ hyps) => goal.  Returns dict(status=proved|refuted|undecided, backend, seconds, model, reason)."""
     timeout_ms = timeout_ms or Z3_TIMEOUT_MS
@@ -58,15 +123,12 @@ def check(hyps, goal, timeout_ms=None, want_model=True, tactic=None, use_cli=Tru
         if st == 'unsat':
             return dict(status='proved', backend=backend, seconds=dt2, model=None, reason='unsat')
         use_cli = False      # sat / unknown: the in-process solver is asked for the verdict and the model
-    r = s.check()
+    st_, mdl, reason = _solve_guarded(s, timeout_ms, want_model)
     dt = time.time() - t0
-    if r == z3.unsat:
+    if st_ == 'unsat':
         return dict(status='proved', backend='z3', seconds=dt, model=None, reason='unsat')
-    if r == z3.sat:
-        m = s.model()
-        return dict(status='refuted', backend='z3', seconds=dt, model=_model_dict(m) if want_model else None,
-                    reason='sat', z3model=m)
-    reason = s.reason_unknown()
+    if st_ == 'sat':
+        return dict(status='refuted', backend='z3', seconds=dt, model=mdl if want_model else None, reason='sat')
     if use_cli:
         smt2 = s.to_smt2()
         st, backend, dt2 = _cli(smt2, max(5, timeout_ms // 1000))
